@@ -162,6 +162,7 @@ structure Facts where
   idleBeforeAuth : Bool := false
   greetClean : Bool := true      -- the delivery that completed the greeting line ended with it
   verdictBad : Bool := false     -- connect's outcome is not what the delivered password verdict says
+  evLowerBad : Bool := false     -- an idle reply the client must have consumed produced no events (see C04 clause)
   pwReplyEnd : Option Nat := none
   writes : Bytes := []
 deriving Inhabited
@@ -277,6 +278,9 @@ def handle (toks : List String) (impl : String) : Verdict :=
     -- oracle: walk the implementation's trace
     let step (f : Facts) (pa : PAct × String) : Facts :=
       let (pa, seg) := pa
+      let droppedBefore := f.droppedSeen
+      let prevBodyLen : Nat := match Spec.firstLine f.delivered with | some (_, rest) => rest.length | none => 0
+      let composite := match pa with | .act (.both _ _ _) => true | _ => false
       let f := match pa with
         | .change n => { f with sv := Spec.Server.change f.sv n }
         | .act (.deliver b) =>
@@ -299,7 +303,7 @@ def handle (toks : List String) (impl : String) : Verdict :=
         | .act (.cancel r) => { f with cancelled := f.cancelled ++ [r] }
         | _ => f
       let parts := if seg == "-" then [] else seg.splitOn "&"
-      parts.foldl (fun f p =>
+      let f := parts.foldl (fun f p =>
         if p.startsWith "w=" then
           match unhex (p.drop 2).toString with
           | some b =>
@@ -334,6 +338,24 @@ def handle (toks : List String) (impl : String) : Verdict :=
           { f with connect := some (p.drop 5).toString, connNoAccept := f.connNoAccept || bad,
                    verdictBad := f.verdictBad || vbad }
         else f) f
+      -- C04 lower bound, valid also under WRITE faults (the read side intact, the peer honest): the
+      -- client was quiescent before this action, so every idle reply completely delivered before it
+      -- has been consumed; and the first response this action's delivery completes is consumed in
+      -- this action (a loop that ends here by a failed write tried that write only after consuming
+      -- it). Their `changed` names must be a prefix of the events delivered so far.
+      let bodyNow : Bytes := match Spec.firstLine f.delivered with | some (_, rest) => rest | none => []
+      let lowerOk :=
+        if droppedBefore || f.readEnds || f.dropMain || password.isSome || !(startsWith f.sv.out bodyNow) then true else
+        let before := (f.sv.idleReplies.filter fun r => r.1 ≤ prevBodyLen).flatMap fun r => r.2.map hex
+        let firstMark := (f.sv.marks.filter fun m => m > prevBodyLen && m ≤ bodyNow.length).head?
+        let extra : List String :=
+          if composite then [] else
+          match firstMark with
+          | some m => ((f.sv.idleReplies.filter fun r => r.1 == m).flatMap fun r => r.2.map hex)
+          | none => []
+        let need := before ++ extra
+        f.events.take need.length == need
+      { f with evLowerBad := f.evLowerBad || !lowerOk }
     let f0 : Facts := { sv := { locked := locked } }
     let f := (pacts.zip implSegs).foldl step f0
     let pendImpl := match implSegs.getLast? with
@@ -392,6 +414,10 @@ def handle (toks : List String) (impl : String) : Verdict :=
     let fifoOk := isSubseq (rawBlocks.map fun b => hex (b.flatMap (· ++ [LF])))
                             (issuedLines.map fun b => hex (b.flatMap (· ++ [LF])))
     let eventsExact := f.events == reported
+    -- the peer sent something outside the grammar (reference decoder, specification side): a drained
+    -- schedule must end with the connection closed and every request resolved
+    let malformedDelivered : Bool :=
+      password.isNone && f.greetClean && (Spec.refDecode (body.length + 2) {} body).any (· == .malformed)
     -- C13 framing, seen from the server: a typed list of n >= 2 commands arrived as one command list
     -- holding exactly the n `echo` lines in order, a list of one command as that bare command
     let typedFramingBad : Option Nat :=
@@ -423,9 +449,14 @@ def handle (toks : List String) (impl : String) : Verdict :=
         else if on "C13" && honest && connectedOk && !f.dropMain && typedPending then "fail:C13-typed-list-never-answered"
         else if on "C13" && honest && typedFramingBad.isSome then s!"fail:C13-list-not-framed-as-one-block-{typedFramingBad.getD 0}"
         else if on "C04" && startsWith f.sv.out body && !(isSubseq f.events reported) then "fail:C04-event-not-reported-by-server"
+        else if on "C04" && f.evLowerBad then "fail:C04-consumed-idle-reply-produced-no-events"
         else if on "C04" && honest && connectedOk && !f.dropMain && !eventsExact then
           "fail:C04-events-differ-from-reported"
         else if on "C08" && f.faulted && connectedOk && !f.dropMain && !pendImpl.isEmpty then "fail:C08-request-never-resolved"
+        else if on "C08" && malformedDelivered && connectedOk && !f.dropMain && !pendImpl.isEmpty then
+          "fail:C08-request-never-resolved-after-invalid-data"
+        else if on "C08" && malformedDelivered && connectedOk && !f.dropMain && !(f.droppedSeen && f.evend && f.closedSeen) then
+          "fail:C08-not-closed-after-invalid-data"
         else if on "C08" && f.readEnds && connectedOk && !f.dropMain && !(f.droppedSeen && f.evend && f.closedSeen) then
           "fail:C08-not-closed-after-fault"
         else if on "C08" && f.uncleanEof && connectedOk && !f.dropMain && f.cancelled.isEmpty && !(containsStr impl "proto:ueof") then
